@@ -31,7 +31,7 @@ def runLocal (fixed : Bool) (ks : List Kind) (sched : List Nat) : String :=
   let cfg : Local.Cfg := { kind := kindOf ks, recheck := fixed }
   let (s, labels) := traceLocal cfg Local.init sched []
   let outs := (List.range ks.length).map (fun t => fmtLocalOutcome (s.pc t))
-  let lock := match s.lock with | none => "free" | some h => toString h
+  let lock := match s.held with | none => "free" | some h => toString h
   s!"{",".intercalate labels} ; {",".intercalate (s.calls.reverse.map fmtCall)} ; uid={fmtId s.uploadId} ; {",".intercalate outs} ; lock={lock}"
 
 def traceDist (cfg : Dist.Cfg) : Dist.State → List Nat → List String → Dist.State × List String
